@@ -1038,6 +1038,12 @@ class Interp:
         name = callee.strip()
         base = re.sub(r"::<.*?>", "", name)
         last = base.split("::")[-1]
+        def deref(v):
+            if isinstance(v, ConstRef):
+                return v.value
+            if isinstance(v, Ref):
+                return self.read_place(env.frame(v.fid), v.place)
+            return v
         if last == "leading_zeros" and "impl u" in name:
             w = int(re.search(r"impl u(\d+)", name).group(1))
             x = args[0]
@@ -1072,6 +1078,15 @@ class Interp:
                 c2 = cmp_("Le", mul(hi.denominator, n), hi.numerator * d)
                 yield ctx, band(c1, c2), env.store; return
             yield ctx, Opq("contains"), env.store; return
+        if last in ("ne", "eq") and "PartialEq" in name:
+            a, b = deref(args[0]), deref(args[1])
+            if isinstance(a, Struct) and isinstance(b, Struct) and list(a.fields) == list(b.fields) and \
+                    all(isinstance(v, (int, T)) for v in list(a.fields.values()) + list(b.fields.values())):
+                diff = False
+                for k in a.fields:
+                    diff = bor(diff, cmp_("Ne", a.fields[k], b.fields[k]))
+                yield ctx, (diff if last == "ne" else bnot(diff)), env.store; return
+            yield ctx, Opq(last), env.store; return
         if last == "is_infinite" and "f64" in name:
             v = args[0]
             while isinstance(v, F64) and v.kind == "neg":
